@@ -1,5 +1,6 @@
 import Pacti.Proofs.Elim
 import Pacti.Proofs.Tactic4
+import Pacti.Proofs.Tactic3
 /-!
 # C04 — variable elimination is implication-preserving for every tactic order
 
@@ -9,10 +10,16 @@ import Pacti.Proofs.Tactic4
 
 The loop theorems are stated for an ARBITRARY tactic table `tac` and ask soundness only of the tactics that occur
 in the order (`TacSound tac k`): they hold for every list length, every context, every order, both flags.
-`driver_tactics_sound` discharges `TacSound` for the modelled tactics 2, 4, 5 and 6 of the real table.
-Tactics 1 and 3 (Kaykobad context reduction) are modelled and compared with the
-implementation on every run; their soundness is established per run by the certified judge, not by a theorem —
-`*_partial` in the names below marks that restriction.
+`driver_tactics_sound` discharges `TacSound` for EVERY entry of the real table (tactics 1–6; any other number is a
+`KeyError`), so `elimRefine_sound_real` / `elimRelax_sound_real` are the property for every tactic order.
+
+* tactic 1 — Kaykobad context reduction: `Proofs/Kay.lean` (the substitution loop subtracts a combination of context
+  rows; `Proofs/Solve.lean`: each solved equation is a combination of the rows; `Proofs/KayMath.lean`: the three
+  Kaykobad tests give every multiplier the sign of the direction);
+* tactic 3 — change of variable + tactic 1: `Proofs/Tactic3.lean`; needs the auxiliary variable to be fresh, which is
+  how the source picks it (`tactic3_fresh_ok`, read off the source by the translator);
+* tactic 4 — `Proofs/Tactic4.lean`; needs the sign of `isolate_variable` (`isolate_sign_ok`, read off the source);
+* tactics 2 and 5 — on a certified LP oracle (`Proofs/Elim.lean`).
 -/
 namespace Pacti.C04
 open Elim
@@ -72,6 +79,21 @@ theorem tactic4_sound (t : PTerm) (H : TL) (xs : List Var) (refine : Bool) (r : 
     ∀ v, TL.holds H v → (if refine then (r.holds v → t.holds v) else (t.holds v → r.holds v)) :=
   Elim.tactic4_sound isolate_sign_ok t H xs refine r h
 
+/-- the auxiliary variable of tactic 3, as read off the current source, clashes with no variable in use -/
+theorem tactic3_fresh_ok : Gen.tactic3Fresh = true := by unfold Gen.tactic3Fresh; rfl
+
+/-- tactic 1 (Kaykobad context reduction), both directions: no hypothesis on the term, the context or the variables -/
+theorem tactic1_sound (t : PTerm) (H : TL) (xs : List Var) (refine : Bool) (r : PTerm)
+    (h : tactic1 t H xs refine = .ok (some r)) :
+    ∀ v, TL.holds H v → (if refine then (r.holds v → t.holds v) else (t.holds v → r.holds v)) :=
+  Elim.tactic1_sound t H xs refine r h
+
+/-- tactic 3 (change of variable over the conflict variables, then tactic 1), both directions -/
+theorem tactic3_sound (t : PTerm) (H : TL) (xs : List Var) (refine : Bool) (r : PTerm)
+    (h : tactic3 t H xs refine = .ok (some r)) :
+    ∀ v, TL.holds H v → (if refine then (r.holds v → t.holds v) else (t.holds v → r.holds v)) :=
+  Elim.tactic3_sound tactic3_fresh_ok t H xs refine r h
+
 /-- the trivial tactic -/
 theorem tactic6_sound (O : Oracle) (hint : PTerm → TL → Bool → Option (List Nat)) : TacSound (tactic O false hint) 6 := by
   intro t H xs refine r h v _
@@ -79,16 +101,35 @@ theorem tactic6_sound (O : Oracle) (hint : PTerm → TL → Bool → Option (Lis
   injection h with h; injection h with h; subst h
   split <;> exact id
 
-/-- the real tactic table is sound at 2, 4, 5 and 6, for every certified oracle and every hint function -/
+/-- every entry of the real tactic table is sound, for every certified oracle and every hint function (a number
+    outside 1..6 is a `KeyError`, never a result) -/
 theorem driver_tactics_sound (O : Oracle) (hO : O.Certified) (hint : PTerm → TL → Bool → Option (List Nat)) :
-    ∀ k ∈ [2, 4, 5, 6], TacSound (tactic O false hint) k := by
-  intro k hk
-  simp only [List.mem_cons, List.mem_nil_iff, or_false] at hk
-  rcases hk with rfl | rfl | rfl | rfl
-  · intro t H xs refine r h; exact Elim.tactic2_sound O hO t H xs refine r h
-  · intro t H xs refine r h; exact Elim.tactic4_sound isolate_sign_ok t H xs refine r h
-  · intro t H xs refine r h; exact Elim.tactic5_sound O hO t H xs refine _ r h
-  · exact tactic6_sound O hint
+    ∀ k, TacSound (tactic O false hint) k := by
+  intro k t H xs refine r h
+  unfold tactic at h
+  split at h
+  · exact Elim.tactic1_sound t H xs refine r h
+  · exact Elim.tactic2_sound O hO t H xs refine r h
+  · exact Elim.tactic3_sound tactic3_fresh_ok t H xs refine r h
+  · exact Elim.tactic4_sound isolate_sign_ok t H xs refine r h
+  · exact Elim.tactic5_sound O hO t H xs refine _ r h
+  · exact tactic6_sound O hint t H xs refine r (by simpa [tactic] using h)
+  · cases h
+
+/-- the property for the real table, refining: every list, context, variable list, order and flag -/
+theorem elimRefine_sound_real (O : Oracle) (hO : O.Certified) (tie : PTerm → Bool) (hint : PTerm → TL → Bool → Option (List Nat))
+    (l ctx : TL) (xs : List Var) (simp : Bool) (ord : List Nat) (r : TL) (used : List Int)
+    (h : elimRefine O tie (tactic O false hint) l ctx xs simp ord = .ok (r, used)) :
+    ∀ v, TL.holds ctx v → TL.holds r v → TL.holds l v :=
+  Elim.elimRefine_sound O hO tie _ l ctx xs simp ord (fun j _ => driver_tactics_sound O hO hint j) r used h
+
+/-- the property for the real table, relaxing -/
+theorem elimRelax_sound_real (O : Oracle) (hO : O.Certified) (tie : PTerm → Bool) (hint : PTerm → TL → Bool → Option (List Nat))
+    (l ctx : TL) (xs : List Var) (simp : Bool) (ord : List Nat) (r : TL) (used : List Int)
+    (h : elimRelax O tie (tactic O false hint) l ctx xs simp ord = .ok (r, used)) :
+    (∀ v, TL.holds ctx v → TL.holds l v → TL.holds r v) ∧ ∀ t ∈ r, ∀ x ∈ t.vars, x ∉ xs :=
+  ⟨Elim.elimRelax_sound O hO tie _ l ctx xs simp ord (fun j _ => driver_tactics_sound O hO hint j) r used h,
+   Elim.elimRelax_no_elim_vars O tie _ l ctx xs simp ord r used h⟩
 
 /-- a dispatcher whose tactics all decline leaves the term (tactic number −1): "must decline, never return
     something else" -/
